@@ -191,10 +191,15 @@ func VerifC10_Locks(L int) {
 	up := verifNondetBool("uplink")
 	cid := verifNondetU8("cid")
 	size := verifNondetInt("size")
+	verifAssume(size <= 16) // any negative size, realistic positive ones (an implementation may allocate per registration)
 	RegisterProprietaryMACCommand(up, CID(cid), size)
 	verifAssert(verifLocksReleased(), "RegisterProprietaryMACCommand releases the registry lock on every path")
 	data := verifNondetBytes("data", L)
-	GetMACPayloadAndSize(up, CID(data[0]))
+	if L > 0 {
+		GetMACPayloadAndSize(up, CID(data[0]))
+	} else {
+		GetMACPayloadAndSize(up, CID(cid))
+	}
 	verifAssert(verifLocksReleased(), "GetMACPayloadAndSize releases the registry lock on every path")
 	decodeDataPayloadToMACCommands(verifNondetBool("dir"), []Payload{&DataPayload{Bytes: data}})
 	verifAssert(verifLocksReleased(), "the stream decoder releases the registry lock on every path")
@@ -275,4 +280,15 @@ func VerifC10_GuardMarshal(mt, n1, n2 int) {
 	verifAssert(verifBytesEq(b1, o1), "encoding / MIC functions do not write into or behind the caller's FOpts bytes")
 	verifAssert(verifBytesEq(b2, o2), "encoding / MIC functions do not write into or behind the caller's FRMPayload bytes")
 	verifReach("done")
+}
+
+func init() {
+	// native replay: a leaked registry lock is observed with TryLock
+	verifNativeLocksReleased = func() bool {
+		if macPayloadMutex.TryLock() {
+			macPayloadMutex.Unlock()
+			return true
+		}
+		return false
+	}
 }
